@@ -55,10 +55,11 @@ impl ZmtpManualParser {
       )));
     }
     let size = raw_size as usize;
-    let total = header_len + size;
-    if src.len() < total {
+    // Subtraction (not addition) so a header announcing ~u64::MAX cannot overflow.
+    if src.len() - header_len < size {
       return Ok(None);
     }
+    let total = header_len + size;
     // ONE copy: kernel ring buffer → final Msg payload allocation
     let mut msg = Msg::from_vec(src[header_len..total].to_vec());
     let mut rz_flags = MsgFlags::empty();
@@ -99,7 +100,10 @@ impl ZmtpManualParser {
         raw_size, self.max_msg_size
       )));
     }
-    Ok(Some(header_len + raw_size as usize))
+    (raw_size as usize)
+      .checked_add(header_len)
+      .map(Some)
+      .ok_or_else(|| ZmqError::ProtocolViolation(format!("frame size {} overflows", raw_size)))
   }
 
   /// Parse one ZMTP frame from a `Bytes` chunk without allocating.
@@ -128,10 +132,11 @@ impl ZmtpManualParser {
       )));
     }
     let size = raw_size as usize;
-    let total = header_len + size;
-    if src.len() < total {
+    // Subtraction (not addition) so a header announcing ~u64::MAX cannot overflow.
+    if src.len() - header_len < size {
       return Ok(None);
     }
+    let total = header_len + size;
     let payload_bytes = src.slice(header_len..total);
     let mut msg = Msg::from_bytes(payload_bytes);
     let mut rz_flags = MsgFlags::empty();
